@@ -54,7 +54,13 @@ func c18Wake(n int) func(x *X) {
 			}
 		}
 		upAt := vt.Elapsed()
-		vs.GoNamed("health", func() { s.rt.up["b"] = true })
+		both := x.Choose(2) == 1 // every target becomes reachable (afterwards the detector has no dead target left to re-examine)
+		vs.GoNamed("health", func() {
+			s.rt.up["b"] = true
+			if both {
+				s.rt.up["a"] = true
+			}
+		})
 		s.tick(2)
 		for _, w := range ws {
 			if !w.done {
@@ -64,11 +70,11 @@ func c18Wake(n int) func(x *X) {
 			}
 		}
 		for _, r := range s.rt.userRoutes(0) {
-			if r.addr != "b" {
+			if r.addr != "b" && !both {
 				x.Fail("C18/routed-to-dead-target", "a released caller was routed to %q", r.addr)
 			}
 		}
-		x.Outcome("n=%d pre=%d", n, pre)
+		x.Outcome("n=%d pre=%d both=%v", n, pre, both)
 		s.close()
 	}
 }
